@@ -11,8 +11,11 @@ import sys
 import time
 
 ROOT = os.path.dirname(os.path.dirname(os.path.abspath(__file__)))
-EVID = os.path.join(ROOT, "evidence")
-REPLAYS = os.path.join(ROOT, "replays")
+# runs against a scratch copy (VERIF_REPO set: seeded changes, proposed patches) must not overwrite
+# the evidence of /repo itself
+_SCRATCH = os.environ.get("VERIF_REPO", "/repo").rstrip("/") != "/repo"
+EVID = os.path.join(ROOT, ".work", "evidence_scratch") if _SCRATCH else os.path.join(ROOT, "evidence")
+REPLAYS = os.path.join(ROOT, ".work", "replays_scratch") if _SCRATCH else os.path.join(ROOT, "replays")
 KNOWN = os.path.join(ROOT, "known_findings.json")
 
 
